@@ -11,9 +11,10 @@ import (
 	"com.tuntun.rangers/node/src/middleware/types"
 	"com.tuntun.rangers/node/src/zzverif/node"
 	"com.tuntun.rangers/node/src/zzverif/runner"
-	"com.tuntun.rangers/node/src/zzverif/simmap"
 	"com.tuntun.rangers/node/src/zzverif/simdisk"
+	"com.tuntun.rangers/node/src/zzverif/simmap"
 	"com.tuntun.rangers/node/src/zzverif/simrt"
+	"com.tuntun.rangers/node/src/zzverif/simsched"
 )
 
 // C05 — block store: one hash-linked canonical chain across reorgs and crashes.
@@ -61,12 +62,12 @@ func (c05) Budget(tier string) runner.Budget {
 	if tier == "thorough" {
 		return runner.Budget{Plans: 6000, PlansPerProc: 6, Wall: 14 * time.Minute}
 	}
-	return runner.Budget{Plans: 480, PlansPerProc: 5, Wall: 50 * time.Second, MinPlans: 400}
+	return runner.Budget{Plans: 440, PlansPerProc: 5, Wall: 75 * time.Second, MinPlans: 340}
 }
 
 func (c05) Describe() runner.Description {
 	return runner.Description{
-		Rule: "each plan: a seeded tree of 2..12 valid blocks (<=3 siblings per parent; different/equal TotalQN, higher/lower/equal prove value, with and without transfer transactions, siblings sharing transactions) generated with the node's own cast/verify/assemble API, then delivered to a fresh node in a seeded order with duplicates, orphans-before-parents, re-deliveries and restarts. evaluations = invariant evaluations: after every delivery on the live node, and - fault enumeration - on a new incarnation booted from the disk image after EVERY individual store write of every delivery that wrote (exhaustive per plan). Invariant: head reachable from genesis by parent links; height index = that chain (cache bypassed and cached); nothing indexed above the head; verify-hash exactly up to the head; persisted head record = head; head state opens and fully resolves; no add/remove mark at quiescence; without crash the head only moves to a chain of not-lower weight (TotalQN, then prove value, then hash at the fork point); after a crash inside a head change the head is the old head, the new head or a common ancestor; transactions of canonical blocks are executed with a receipt naming their canonical block, those of removed blocks are not executed and (live) pending again; after the crash the restarted node accepts a valid extension of its head. distinct_nontrivial = distinct (tree shape, delivery order, crash index) triples whose delivery changed the head.",
+		Rule:        "each plan: a seeded tree of 2..12 valid blocks (<=3 siblings per parent; different/equal TotalQN, higher/lower/equal prove value, with and without transfer transactions, siblings sharing transactions) generated with the node's own cast/verify/assemble API, then delivered to a fresh node in a seeded order with duplicates, orphans-before-parents, re-deliveries and restarts; the deliveries between two restarts run as one task of the seeded scheduler, so that a goroutine the node starts while handling a delivery is a task interleaved with the following deliveries. evaluations = invariant evaluations: after every delivery on the live node, and - fault enumeration - on a new incarnation booted from the disk image after EVERY individual store write of every delivery that wrote (exhaustive per plan). Invariant: head reachable from genesis by parent links; height index = that chain (cache bypassed and cached); nothing indexed above the head; verify-hash exactly up to the head; persisted head record = head; head state opens and fully resolves; no add/remove mark at quiescence; without crash the head only moves to a chain of not-lower weight (TotalQN, then prove value, then hash at the fork point); after a crash inside a head change the head is the old head, the new head or a common ancestor; transactions of canonical blocks are executed with a receipt naming their canonical block, those of removed blocks are not executed and (live) pending again; after the crash the restarted node accepts a valid extension of its head. distinct_nontrivial = distinct (tree shape, delivery order, crash index) triples whose delivery changed the head.",
 		Assumptions: []string{"stub ConsensusHelper accepts group signatures / VRF (judged by C13-C16)", "crash = process death after a completed store write (no torn or lost writes)", "the pending pool is memory-only by design, so 'pending again' is asserted on the live node and for the block the restart rolls back"},
 		Real:        []string{"core/blockchain*.go (add, insert, remove, consistency repair, fork choice, verify, cast)", "service tx pool + executed store", "core/vmexecutor + executors (transfers, rewards, refunds)", "storage/account + trie on real goleveldb over simulated storage", "types wire codecs (block records)"},
 		Stub:        []string{"ConsensusHelper", "network / sync processor (not started)", "NTP clock"},
@@ -561,73 +562,105 @@ func (c05) Exec(raw json.RawMessage, st *simrt.Stats, log *simrt.Log) *simrt.Vio
 		return nil
 	}
 
-	for i, d := range p.Deliver {
-		st.Ops++
-		if d < 0 {
-			n = node.Boot(disk, forks, false)
-			st.Fault("restart")
-			log.Add("%d restart head=%s", i, hashOf(n.Chain.TopBlock()))
-			if v := c05Structure(n, k, i, "after-restart", false); v != nil {
+	// the deliveries run as ONE task of the seeded scheduler: a goroutine the node starts while handling a
+	// delivery becomes a task that is interleaved with the following deliveries (instead of a real goroutine
+	// whose timing nobody controls)
+	deliverRange := func(from, to int) *simrt.Violation {
+		for i := from; i < to; i++ {
+			d := p.Deliver[i]
+			st.Ops++
+			if d < 0 {
+				n = node.Boot(disk, forks, false)
+				st.Fault("restart")
+				log.Add("%d restart head=%s", i, hashOf(n.Chain.TopBlock()))
+				if v := c05Structure(n, k, i, "after-restart", false); v != nil {
+					return v
+				}
+				st.Evaluations++
+				continue
+			}
+			if d >= len(tree) {
+				continue
+			}
+			blk := node.CloneBlock(tree[d].block)
+			oldHead := n.Chain.TopBlock().Hash
+			if delivered[d] {
+				st.Fault("duplicate_delivery")
+			}
+			if !delivered[d] && tree[d].spec.Parent >= 0 && !delivered[tree[d].spec.Parent] {
+				st.Fault("orphan_first")
+			}
+			delivered[d] = true
+			var mids []*simdisk.Disk
+			if p.Crash {
+				node.OnWrite = func(idx int, kind string) { mids = append(mids, disk.Clone()) }
+			}
+			w0 := node.Writes
+			res := n.Chain.AddBlockOnChain(blk)
+			node.OnWrite = nil
+			nw := node.Writes - w0
+			newHead := n.Chain.TopBlock().Hash
+			log.Add("%d deliver b%d h=%d qn=%d pv=%v -> res=%d writes=%d head %x -> %x", i, d, blk.Header.Height, blk.Header.TotalQN, blk.Header.ProveValue, res, nw, oldHead.Bytes()[:4], newHead.Bytes()[:4])
+			if v := c05Structure(n, k, i, "after-delivery", true); v != nil {
 				return v
 			}
 			st.Evaluations++
-			continue
-		}
-		if d >= len(tree) {
-			continue
-		}
-		blk := node.CloneBlock(tree[d].block)
-		oldHead := n.Chain.TopBlock().Hash
-		if delivered[d] {
-			st.Fault("duplicate_delivery")
-		}
-		if !delivered[d] && tree[d].spec.Parent >= 0 && !delivered[tree[d].spec.Parent] {
-			st.Fault("orphan_first")
-		}
-		delivered[d] = true
-		var mids []*simdisk.Disk
-		if p.Crash {
-			node.OnWrite = func(idx int, kind string) { mids = append(mids, disk.Clone()) }
-		}
-		w0 := node.Writes
-		res := n.Chain.AddBlockOnChain(blk)
-		node.OnWrite = nil
-		nw := node.Writes - w0
-		newHead := n.Chain.TopBlock().Hash
-		log.Add("%d deliver b%d h=%d qn=%d pv=%v -> res=%d writes=%d head %x -> %x", i, d, blk.Header.Height, blk.Header.TotalQN, blk.Header.ProveValue, res, nw, oldHead.Bytes()[:4], newHead.Bytes()[:4])
-		if v := c05Structure(n, k, i, "after-delivery", true); v != nil {
-			return v
-		}
-		st.Evaluations++
-		// (7) weight monotonicity
-		if !k.weightNotLower(oldHead, newHead) {
-			return simrt.Violationf("C05", "head-moved-to-lower-weight", "after-delivery", i, "head moved from %x (qn %d) to %x (qn %d), which is lower by (TotalQN, prove value, hash at the fork point)", oldHead.Bytes()[:6], k.header(oldHead).TotalQN, newHead.Bytes()[:6], k.header(newHead).TotalQN)
-		}
-		// a valid extension of the head delivered to a healthy node must be accepted
-		if blk.Header.PreHash == oldHead && res != types.AddBlockSucc && res != types.BlockExisted {
-			return simrt.Violationf("C05", "valid-extension-rejected", "after-delivery", i, "block %d extends the head but AddBlockOnChain returned %d", d, res)
-		}
-		if newHead != oldHead {
-			anc := k.ancestors(oldHead)
-			isExt := false
-			for _, h := range k.ancestors(newHead) {
-				if h == oldHead {
-					isExt = true
+			// (7) weight monotonicity
+			if !k.weightNotLower(oldHead, newHead) {
+				return simrt.Violationf("C05", "head-moved-to-lower-weight", "after-delivery", i, "head moved from %x (qn %d) to %x (qn %d), which is lower by (TotalQN, prove value, hash at the fork point)", oldHead.Bytes()[:6], k.header(oldHead).TotalQN, newHead.Bytes()[:6], k.header(newHead).TotalQN)
+			}
+			// a valid extension of the head delivered to a healthy node must be accepted
+			if blk.Header.PreHash == oldHead && res != types.AddBlockSucc && res != types.BlockExisted {
+				return simrt.Violationf("C05", "valid-extension-rejected", "after-delivery", i, "block %d extends the head but AddBlockOnChain returned %d", d, res)
+			}
+			if newHead != oldHead {
+				anc := k.ancestors(oldHead)
+				isExt := false
+				for _, h := range k.ancestors(newHead) {
+					if h == oldHead {
+						isExt = true
+					}
+				}
+				if !isExt {
+					st.Fault("reorg")
+					_ = anc
+					if v := removedPendingCheck(i, oldHead, newHead); v != nil {
+						return v
+					}
 				}
 			}
-			if !isExt {
-				st.Fault("reorg")
-				_ = anc
-				if v := removedPendingCheck(i, oldHead, newHead); v != nil {
-					return v
+			for j, m := range mids {
+				if j+1 < len(mids) || true {
+					images = append(images, image{disk: m, ev: i, k: j + 1, w: len(mids), old: oldHead, new: newHead})
 				}
 			}
 		}
-		for j, m := range mids {
-			if j+1 < len(mids) || true {
-				images = append(images, image{disk: m, ev: i, k: j + 1, w: len(mids), old: oldHead, new: newHead})
+		return nil
+	}
+	// segments between restarts run inside the scheduler; a restart itself (booting an incarnation starts the
+	// node's service goroutines, which never end) runs outside it
+	for a := 0; a < len(p.Deliver); {
+		b := a
+		if p.Deliver[a] < 0 {
+			if v := deliverRange(a, a+1); v != nil {
+				return v
 			}
+			a++
+			continue
 		}
+		for b < len(p.Deliver) && p.Deliver[b] >= 0 {
+			b++
+		}
+		var loopViol *simrt.Violation
+		from, to := a, b
+		sres := simsched.Run(simsched.Options{Seed: p.Seed ^ 0x5ced ^ uint64(a), Policy: "random", MaxPreempt: -1, MaxSteps: 50000000}, []string{"deliverer"}, []func(){func() { loopViol = deliverRange(from, to) }})
+		if sres.Panic != nil {
+			return simrt.Violationf("C05", "host-panic", "delivery", a, "%v", sres.Panic)
+		}
+		if loopViol != nil {
+			return loopViol
+		}
+		a = b
 	}
 
 	// fault enumeration: crash after write k of delivery ev, restart
